@@ -284,8 +284,7 @@ def Spec.runP {σ} (S : Sys σ) (a : Spec σ) : List OpP → Spec σ × List (Op
     steps).  Which parameters a step names, and in which order, is free. -/
 def wfSteps (steps : List PStep) : Bool := steps.all (fun s => decide (0 < s.1))
 
-/-- every protocol of the history is well-formed (the property's quantifier: positive durations, the
-    documented same-parameters-in-every-step form) -/
+/-- every protocol of the history is well-formed: positive durations (`wfSteps`), nothing else -/
 def wfOp : OpP → Bool
   | .basic _ => true
   | .protocol steps _ => wfSteps steps
